@@ -69,9 +69,19 @@ WrapperCmds == EnterCmds \cup CommitCmds \cup LeaveCmds \cup SaveCmds
 \* deploy rules: [pat, timeout, answers, kids]; the rule chain of a path, level by level (first = only match: disjoint siblings)
 \* The clause is defined for paths whose every level is matched, and for top-level commands no rule matches (defaults); how an
 \* unmatched intermediate level is treated is not fixed by the property (the code keeps matching against the same rule level).
-ParamsDefined(rules, path) == LET ch == Chain(rules, path) IN (\A k \in DOMAIN ch : ch[k] # 0) \/ Len(path) = 1
-RuleFor(rules, path) ==
-  LET ch == Chain(rules, path) IN
+\* A rule may be bound to contexts (%ifcontext=k:v,k:v,...): it applies to a command whose context (set by its patching rule) holds ANY of
+\* the listed pairs; a rule that matches the row but not the context is passed over and the next rule of the level is tried.
+CtxOK(rule, ctx) == rule.ifctx = <<>> \/ \E a \in DOMAIN rule.ifctx : \E b \in DOMAIN ctx : ctx[b] = rule.ifctx[a]
+RECURSIVE FirstRuleCtx(_, _, _, _)
+FirstRuleCtx(rules, row, ctx, k) == IF k > Len(rules) THEN 0
+                                    ELSE IF Match(rules[k].pat, row, row, FALSE) /\ CtxOK(rules[k], ctx) THEN k ELSE FirstRuleCtx(rules, row, ctx, k + 1)
+RECURSIVE ChainCtx(_, _, _)
+ChainCtx(rules, path, ctx) == IF path = <<>> THEN <<>>
+                              ELSE LET k == FirstRuleCtx(rules, Head(path), ctx, 1) IN
+                                   IF k = 0 THEN <<0>> ELSE <<k>> \o ChainCtx(rules[k].kids, Tail(path), ctx)
+ParamsDefined(rules, path, ctx) == LET ch == ChainCtx(rules, path, ctx) IN (\A k \in DOMAIN ch : ch[k] # 0) \/ Len(path) = 1
+RuleFor(rules, path, ctx) ==
+  LET ch == ChainCtx(rules, path, ctx) IN
   IF \E k \in DOMAIN ch : ch[k] = 0 THEN [timeout |-> 30, answers |-> <<>>]
   ELSE LET RECURSIVE Walk(_, _)
            Walk(rs, c) == IF Len(c) = 1 THEN rs[c[1]] ELSE Walk(rs[c[1]].kids, Tail(c))
